@@ -682,7 +682,7 @@ fn run_real(id: u16, direct: bool, out: &mut Vec<Violation>) {
     }
 }
 
-pub const N_REAL: u16 = 21;
+pub const N_REAL: u16 = 24;
 
 /// Thorough tier: larger argument alphabets in the real-kernel scenarios.
 static THOROUGH: std::sync::atomic::AtomicBool = std::sync::atomic::AtomicBool::new(false);
@@ -1218,6 +1218,18 @@ fn run_real_inner(id: u16, direct: bool) -> Vec<Violation> {
             if info.pid() as u32 != child.id() || info.status().into_raw() != 7 {
                 out.push(v("real/waitid", format!("child {} exited with 7; a10 reports pid {} status {:?}", child.id(), info.pid(), info.status())));
             }
+            // Every accessor against waitid(2) on a second, identical child (left waitable by the first call).
+            let child2 = std::process::Command::new("/bin/sh").arg("-c").arg("kill -TERM $$").spawn().expect("spawn");
+            let info2 = block_on(&mut ring, a10::process::wait_on(sq.clone(), &child2).flags(a10::process::WaitOption::EXITED)).expect("wait_on");
+            let child3 = std::process::Command::new("/bin/sh").arg("-c").arg("kill -TERM $$").spawn().expect("spawn");
+            let mut si: libc::siginfo_t = unsafe { std::mem::zeroed() };
+            let r = unsafe { libc::waitid(libc::P_PID, child3.id(), &mut si, libc::WEXITED) };
+            let (want_code, want_status, want_uid, want_signo) = unsafe { (si.si_code, si.si_status(), si.si_uid(), si.si_signo) };
+            let got = (format!("{:?}", info2.code()), info2.status().into_raw(), info2.real_user_id(), format!("{:?}", info2.signal()));
+            let want = (format!("{:?}", a10::process::ChildStatus::KILLED), want_status, want_uid, format!("{:?}", a10::process::Signal::CHILD));
+            if r != 0 || want_code != libc::CLD_KILLED || want_signo != libc::SIGCHLD || got != want || info2.pid() as u32 != child2.id() {
+                out.push(v("real/waitid-accessors", format!("a child killed by SIGTERM: a10 reports (code, status, uid, signal) = {got:?} pid {}, waitid(2) on an identical child gives {want:?} (code {want_code}, signo {want_signo})", info2.pid())));
+            }
         }
         // Every socket option type: set through a10 / read by getsockopt(2) and the reverse, against a twin socket.
         15 => {
@@ -1679,6 +1691,237 @@ fn run_real_inner(id: u16, direct: bool) -> Vec<Violation> {
                 drop(dfd);
                 drop(afd);
                 ring.poll(Some(Duration::ZERO)).unwrap();
+            }
+        }
+        // Metadata of every kind of descriptor: each accessor against fstat(2).
+        20 => {
+            use std::os::fd::AsRawFd;
+            use std::os::unix::fs::{FileTypeExt, MetadataExt, PermissionsExt};
+            let mut targets: Vec<(String, std::fs::File)> = Vec::new();
+            for (i, mode) in [0o644u32, 0o600, 0o755, 0o421, 0o007, 0o070, 0o700, 0o111, 0o222].into_iter().enumerate() {
+                let p = fx.file(&format!("m{i}"), &content(10 + i * 1000));
+                std::fs::set_permissions(&p, std::fs::Permissions::from_mode(mode)).unwrap();
+                if let Ok(f) = std::fs::OpenOptions::new().read(mode & 0o400 != 0).write(mode & 0o400 == 0 && mode & 0o200 != 0).open(&p) {
+                    targets.push((format!("file mode {mode:o}"), f));
+                }
+            }
+            targets.push(("directory".into(), std::fs::File::open(&fx.dir).unwrap()));
+            targets.push(("character device".into(), std::fs::File::open("/dev/null").unwrap()));
+            {
+                let mut pfd = [0i32; 2];
+                assert_eq!(unsafe { libc::pipe2(pfd.as_mut_ptr(), libc::O_CLOEXEC) }, 0);
+                targets.push(("pipe".into(), unsafe { std::fs::File::from_raw_fd(pfd[0]) }));
+                unsafe { libc::close(pfd[1]) };
+                let sfd = unsafe { libc::socket(libc::AF_UNIX, libc::SOCK_STREAM | libc::SOCK_CLOEXEC, 0) };
+                targets.push(("socket".into(), unsafe { std::fs::File::from_raw_fd(sfd) }));
+            }
+            for (what, f) in targets {
+                let dup = unsafe { libc::fcntl(f.as_raw_fd(), libc::F_DUPFD_CLOEXEC, 3) };
+                let afd = unsafe { AsyncFd::from_raw_fd(dup, sq.clone()) };
+                let m = match block_on(&mut ring, afd.metadata()) {
+                    Ok(m) => m,
+                    Err(e) => {
+                        out.push(v(&format!("real/metadata/{kind}"), format!("{what}: metadata fails with {e}")));
+                        continue;
+                    }
+                };
+                let sm = f.metadata().unwrap();
+                let ft = sm.file_type();
+                let mode = sm.permissions().mode();
+                let p = m.permissions();
+                let t = m.file_type();
+                let mut bad = Vec::new();
+                let mut chk = |name: &str, got: String, want: String| {
+                    if got != want {
+                        bad.push(format!("{name}: a10 {got}, fstat {want}"));
+                    }
+                };
+                chk("len", m.len().to_string(), sm.len().to_string());
+                chk("block_size", m.block_size().to_string(), sm.blksize().to_string());
+                chk("is_dir", m.is_dir().to_string(), ft.is_dir().to_string());
+                chk("is_file", m.is_file().to_string(), ft.is_file().to_string());
+                chk("is_symlink", m.is_symlink().to_string(), ft.is_symlink().to_string());
+                chk("type.is_dir", t.is_dir().to_string(), ft.is_dir().to_string());
+                chk("type.is_file", t.is_file().to_string(), ft.is_file().to_string());
+                chk("type.is_symlink", t.is_symlink().to_string(), ft.is_symlink().to_string());
+                chk("type.is_socket", t.is_socket().to_string(), ft.is_socket().to_string());
+                chk("type.is_block_device", t.is_block_device().to_string(), ft.is_block_device().to_string());
+                chk("type.is_character_device", t.is_character_device().to_string(), ft.is_char_device().to_string());
+                chk("type.is_named_pipe", t.is_named_pipe().to_string(), ft.is_fifo().to_string());
+                let bits = [
+                    (p.owner_can_read(), 0o400), (p.owner_can_write(), 0o200), (p.owner_can_execute(), 0o100),
+                    (p.group_can_read(), 0o040), (p.group_can_write(), 0o020), (p.group_can_execute(), 0o010),
+                    (p.others_can_read(), 0o004), (p.others_can_write(), 0o002), (p.others_can_execute(), 0o001),
+                ];
+                for (got, bit) in bits {
+                    chk(&format!("permission bit {bit:o}"), got.to_string(), (mode & bit != 0).to_string());
+                }
+                chk("modified", format!("{:?}", m.modified()), format!("{:?}", sm.modified().unwrap()));
+                chk("accessed", format!("{:?}", m.accessed()), format!("{:?}", sm.accessed().unwrap()));
+                if let Ok(c) = sm.created() {
+                    chk("created", format!("{:?}", m.created()), format!("{c:?}"));
+                }
+                // A restricted request is answered with at least what was asked for.
+                use a10::fs::MetadataInterest as MI;
+                match block_on(&mut ring, afd.metadata().only(MI::SIZE | MI::TYPE)) {
+                    Ok(m2) => {
+                        let filled = format!("{:?}", m2.filled());
+                        if m2.len() != sm.len() || m2.is_dir() != ft.is_dir() {
+                            bad.push(format!("only(SIZE|TYPE): len {} is_dir {} (filled {filled})", m2.len(), m2.is_dir()));
+                        }
+                    }
+                    Err(e) => bad.push(format!("only(SIZE|TYPE) fails with {e}")),
+                }
+                if !bad.is_empty() {
+                    out.push(v(&format!("real/metadata-accessors/{kind}"), format!("{what}: {}", bad.join("; "))));
+                }
+                drop(afd);
+                ring.poll(Some(Duration::ZERO)).unwrap();
+            }
+        }
+        // The synchronous helpers against the calls they wrap.
+        21 => {
+            if direct {
+                return out;
+            }
+            use a10::net::{Domain, Protocol, Type, sync_bind, sync_listen, sync_local_addr, sync_set_socket_option, sync_socket, sync_socket_option};
+            use std::os::fd::AsRawFd;
+            for (d, t, pr, raw) in [
+                (Domain::IPV4, Type::STREAM, None, (libc::AF_INET, libc::SOCK_STREAM, 0)),
+                (Domain::IPV4, Type::DGRAM, Some(Protocol::UDP), (libc::AF_INET, libc::SOCK_DGRAM, libc::IPPROTO_UDP)),
+                (Domain::IPV6, Type::STREAM, Some(Protocol::TCP), (libc::AF_INET6, libc::SOCK_STREAM, libc::IPPROTO_TCP)),
+                (Domain::UNIX, Type::DGRAM, None, (libc::AF_UNIX, libc::SOCK_DGRAM, 0)),
+            ] {
+                let s = match sync_socket(d, t, pr) {
+                    Ok(s) => s,
+                    Err(e) => {
+                        if raw.0 != libc::AF_INET6 {
+                            out.push(v("real/sync_socket", format!("sync_socket({raw:?}) fails with {e}")));
+                        }
+                        continue;
+                    }
+                };
+                let get = |name: i32| {
+                    let mut val = 0i32;
+                    let mut len = 4u32;
+                    unsafe { libc::getsockopt(s.as_raw_fd(), libc::SOL_SOCKET, name, (&raw mut val).cast(), &raw mut len) };
+                    val
+                };
+                let cloexec = unsafe { libc::fcntl(s.as_raw_fd(), libc::F_GETFD) } & libc::FD_CLOEXEC != 0;
+                let want_proto = if raw.2 != 0 { raw.2 } else if raw.0 == libc::AF_UNIX { 0 } else if raw.1 == libc::SOCK_STREAM { libc::IPPROTO_TCP } else { libc::IPPROTO_UDP };
+                if get(libc::SO_DOMAIN) != raw.0 || get(libc::SO_TYPE) != raw.1 || get(libc::SO_PROTOCOL) != want_proto || !cloexec {
+                    out.push(v("real/sync_socket", format!("sync_socket({raw:?}) made a socket with domain {} type {} protocol {} cloexec {cloexec}", get(libc::SO_DOMAIN), get(libc::SO_TYPE), get(libc::SO_PROTOCOL))));
+                }
+            }
+            let s = sync_socket(Domain::IPV4, Type::STREAM, None).expect("socket");
+            let addr: std::net::SocketAddr = format!("127.0.0.1:{}", free_port(false)).parse().unwrap();
+            let r1 = sync_set_socket_option::<a10::net::option::ReuseAddress>(&s, true);
+            let r2 = sync_bind(&s, addr);
+            let r3 = sync_listen(&s, 7);
+            let got: std::io::Result<std::net::SocketAddr> = sync_local_addr(&s);
+            let reuse = sync_socket_option::<a10::net::option::ReuseAddress>(&s);
+            let accepting = sync_socket_option::<a10::net::option::Accept>(&s);
+            let connects = std::net::TcpStream::connect(addr).is_ok();
+            if r1.is_err() || r2.is_err() || r3.is_err() || got.as_ref().ok() != Some(&addr) || reuse.as_ref().ok() != Some(&true) || accepting.as_ref().ok() != Some(&true) || !connects {
+                out.push(v("real/sync-helpers", format!("setsockopt {r1:?}, bind {r2:?}, listen {r3:?}, local_addr {got:?} (bound {addr}), SO_REUSEADDR {reuse:?}, SO_ACCEPTCONN {accepting:?}, a client connects: {connects}")));
+            }
+            // A second bind to the same address fails the same way bind(2) does.
+            let s2 = sync_socket(Domain::IPV4, Type::STREAM, None).expect("socket");
+            let e = sync_bind(&s2, addr);
+            if e.as_ref().err().and_then(|e| e.raw_os_error()) != Some(libc::EADDRINUSE) {
+                out.push(v("real/sync-helpers", format!("binding a second socket to {addr}: {e:?}, bind(2) fails with EADDRINUSE")));
+            }
+            // Pipes.
+            for (flags, raw_flags) in [(None, 0), (Some(a10::pipe::PipeFlag::DIRECT), libc::O_DIRECT)] {
+                let r = match flags {
+                    None => a10::pipe::sync_pipe(),
+                    Some(f) => a10::pipe::sync_pipe2(f),
+                };
+                match r {
+                    Ok([rd, wr]) => {
+                        let fl = unsafe { libc::fcntl(wr.as_raw_fd(), libc::F_GETFL) };
+                        let cx = unsafe { libc::fcntl(rd.as_raw_fd(), libc::F_GETFD) } & libc::FD_CLOEXEC != 0;
+                        let n = unsafe { libc::write(wr.as_raw_fd(), b"pp".as_ptr().cast(), 2) };
+                        let mut b = [0u8; 4];
+                        let m = unsafe { libc::read(rd.as_raw_fd(), b.as_mut_ptr().cast(), 4) };
+                        if n != 2 || m != 2 || &b[..2] != b"pp" || !cx || (fl & libc::O_DIRECT != 0) != (raw_flags != 0) {
+                            out.push(v("real/sync_pipe", format!("flags {raw_flags:#x}: wrote {n}, read {m}, cloexec {cx}, file flags {fl:#x}")));
+                        }
+                    }
+                    Err(e) => out.push(v("real/sync_pipe", format!("flags {raw_flags:#x}: {e}"))),
+                }
+            }
+        }
+        // Process signals through a signalfd: receive, the owned iterator, blocking and unblocking.
+        22 => {
+            use a10::process::{Signal, Signals, To, send_signal, send_signal_check};
+            // A process-directed signal may be delivered to any thread that does not block it.
+            // (Threads of earlier scenarios have been joined; give their kernel tasks a moment to go away.)
+            let mut threads = 0;
+            for _ in 0..200 {
+                // io_uring's own worker tasks (iou-wrk-*, iou-sqp-*) take no signals.
+                threads = std::fs::read_dir("/proc/self/task")
+                    .map(|d| d.filter(|e| e.as_ref().is_ok_and(|e| !std::fs::read_to_string(e.path().join("comm")).unwrap_or_default().starts_with("iou-"))).count())
+                    .unwrap_or(2);
+                if threads == 1 {
+                    break;
+                }
+                std::thread::sleep(Duration::from_millis(5));
+            }
+            if threads != 1 {
+                if std::env::var("A10MC_DEBUG").is_ok() {
+                    eprintln!("signals scenario skipped: {threads} threads");
+                }
+                return out;
+            }
+            let blocked = |sig: i32| -> bool {
+                let mut cur: libc::sigset_t = unsafe { std::mem::zeroed() };
+                unsafe { libc::pthread_sigmask(libc::SIG_BLOCK, std::ptr::null(), &mut cur) };
+                unsafe { libc::sigismember(&cur, sig) == 1 }
+            };
+            let signals = Signals::from_signals(sq.clone(), [Signal::USER1, Signal::USER2]).expect("signalfd");
+            if !blocked(libc::SIGUSR1) || !blocked(libc::SIGUSR2) || blocked(libc::SIGTERM) {
+                out.push(v(&format!("real/signals/{kind}"), format!("after Signals::from_signals([USER1, USER2]): USR1 blocked {}, USR2 blocked {}, TERM blocked {}", blocked(libc::SIGUSR1), blocked(libc::SIGUSR2), blocked(libc::SIGTERM))));
+                return out;
+            }
+            if !signals.set().contains(Signal::USER1) || !signals.set().contains(Signal::USER2) || signals.set().contains(Signal::INTERRUPT) {
+                out.push(v(&format!("real/signals/{kind}"), "Signals::set() does not hold exactly the requested signals".into()));
+            }
+            let signals = if direct { block_on(&mut ring, signals.to_direct_descriptor()).expect("to_direct_descriptor") } else { signals };
+            if send_signal_check(To::this_process()).is_err() {
+                out.push(v(&format!("real/signals/{kind}"), "send_signal_check(this process) fails".into()));
+            }
+            send_signal(To::this_process(), Signal::USER1).expect("kill");
+            match block_on(&mut ring, signals.receive()) {
+                Ok(info) => {
+                    let me = std::process::id();
+                    let uid = unsafe { libc::getuid() };
+                    if format!("{:?}", info.signal()) != format!("{:?}", Signal::USER1) || info.pid() != me || info.real_user_id() != uid {
+                        out.push(v(&format!("real/signals/{kind}"), format!("sent SIGUSR1 to this process ({me}, uid {uid}): received signal {:?} from pid {} uid {}", info.signal(), info.pid(), info.real_user_id())));
+                    }
+                }
+                Err(e) => out.push(v(&format!("real/signals/{kind}"), format!("receive fails with {e}"))),
+            }
+            // Two pending signals through the owned iterator: lowest number first, as read(2) on a signalfd reports them.
+            send_signal(To::this_process(), Signal::USER2).expect("kill");
+            send_signal(To::this_process(), Signal::USER1).expect("kill");
+            let mut it = Box::pin(signals.receive_signals());
+            let mut seen = Vec::new();
+            for _ in 0..2 {
+                match block_next!(ring, it.as_mut()) {
+                    Some(Ok(info)) => seen.push(format!("{:?}", info.signal())),
+                    other => seen.push(format!("{:?}", other.map(|r| r.map(|_| ())))),
+                }
+            }
+            if seen != [format!("{:?}", Signal::USER1), format!("{:?}", Signal::USER2)] {
+                out.push(v(&format!("real/signals/{kind}"), format!("USR2 then USR1 sent while nothing was reading: the iterator yields {seen:?}")));
+            }
+            let signals = Pin::into_inner(it).into_inner();
+            ring.poll(Some(Duration::from_millis(5))).unwrap();
+            drop(signals);
+            ring.poll(Some(Duration::from_millis(5))).unwrap();
+            if blocked(libc::SIGUSR1) || blocked(libc::SIGUSR2) {
+                out.push(v(&format!("real/signals/{kind}"), "the signals are still blocked after Signals was dropped".into()));
             }
         }
         // Descriptor conversions and close.
